@@ -307,6 +307,8 @@ class C08:
         with run.guard(name, "construct env"):
             env = E.make_env(cfg)
         run.results = []
+        run.stats["runs:" + name] += 1
+        run.stats["source:" + plan["source"]] += 1
         holder = {"env": env}
         for ei, ep in enumerate(plan["episodes"]):
             _episode(run, holder, cfg, insts, ep, ei)
@@ -572,6 +574,8 @@ def _episode(run, holder, cfg, insts, ep, ep_i):
         raise HarnessError("mixed quotas in one batch are out of scope")
     if B >= 2:
         run.nontrivial = True
+    run.stats["episodes:" + name] += 1
+    run.stats["rows:" + name] += B
     with run.guard(name, "reset", phase="batch", B=B):
         td = E.reset(holder["env"], cfg, rows)
     td, executed, snap = _drive(run, holder, cfg, td, refs, 0, ep["strategies"], perturbs, "batch", ep_i)
